@@ -81,6 +81,14 @@ class SpentFuelPool(ExcoreStructure):
 
         super().add(assem, loc)
 
+        # the core's name lookups cover the assemblies in the pool, whichever way they got here
+        # (discharged from the core, or put into the pool by the blueprints)
+        core = getattr(self.r, "core", None)
+        if core is not None:
+            core.assembliesByName[assem.getName()] = assem
+            for b in assem:
+                core.blocksByName[b.getName()] = b
+
     def getAssembly(self, name):
         """Get a specific assembly by name."""
         for a in self:
